@@ -3614,6 +3614,66 @@ def forward_flags(fn):
     return done
 
 
+def incremental_dicts(fn):
+    """`d = {..}` directly followed by `d["k"] = v` statements (literal
+    keys not yet present) -> one display; `d` then used only as `**d` in the
+    next statement's call -> the display in place."""
+    done = False
+    for par in [fn] + list(_walk_own(fn)):
+        for fld in ("body", "orelse", "finalbody"):
+            blk = getattr(par, fld, None)
+            if not isinstance(blk, list):
+                continue
+            i = 0
+            while i < len(blk):
+                st = blk[i]
+                i += 1
+                if not (isinstance(st, ast.Assign) and len(st.targets) == 1
+                        and isinstance(st.targets[0], ast.Name)
+                        and isinstance(st.value, ast.Dict)
+                        and all(k is not None and isinstance(k, ast.Constant)
+                                for k in st.value.keys)):
+                    continue
+                d = st.targets[0].id
+                j = i
+                while j < len(blk):
+                    s2 = blk[j]
+                    if isinstance(s2, ast.Assign) and len(
+                            s2.targets) == 1 and isinstance(
+                            s2.targets[0], ast.Subscript) and isinstance(
+                            s2.targets[0].value, ast.Name) and \
+                            s2.targets[0].value.id == d and isinstance(
+                            s2.targets[0].slice, ast.Constant) and \
+                            s2.targets[0].slice.value not in [
+                                k.value for k in st.value.keys] and not any(
+                                isinstance(n, ast.Name) and n.id == d
+                                for n in ast.walk(s2.value)):
+                        st.value.keys.append(s2.targets[0].slice)
+                        st.value.values.append(s2.value)
+                        del blk[j]
+                        done = True
+                        continue
+                    break
+                # only use: **d in the next statement
+                uses = [n for n in ast.walk(fn) if isinstance(n, ast.Name)
+                        and n.id == d]
+                if len(uses) == 2 and i < len(blk):
+                    nx = blk[i]
+                    kws = [(c, k) for c in ast.walk(nx) if isinstance(
+                        c, ast.Call) for k in c.keywords
+                        if k.arg is None and k.value is uses[1]]
+                    if len(kws) == 1 and isinstance(nx, (ast.Expr, ast.Assign,
+                                                         ast.Return)) and \
+                            nx.value is kws[0][0]:
+                        kws[0][1].value = st.value
+                        blk.remove(st)
+                        i -= 1
+                        done = True
+    if done:
+        ast.fix_missing_locations(fn)
+    return done
+
+
 def conditional_pipelines(fn):
     """`L = []`, then `if c: L.append(f)` (f a function reference) any number
     of times, then one `for x in L: BODY` -> `if c: BODY[x:=f]` in order; L is
